@@ -242,6 +242,7 @@ func c10Workloads() []c10Workload {
 		{name: "metadata", pre: pre(BindPost, true), main: func(w *WorldCfg) *MsgSpec { return &MsgSpec{Kind: "metadata"} }},
 		{name: "certificate", pre: pre(BindPost, true), main: func(w *WorldCfg) *MsgSpec { return &MsgSpec{Kind: "cert"} }},
 		{name: "ready", pre: pre(BindPost, true), main: func(w *WorldCfg) *MsgSpec { return &MsgSpec{Kind: "ready"} }},
+		{name: "ready-head", pre: pre(BindPost, true), main: func(w *WorldCfg) *MsgSpec { return &MsgSpec{Kind: "ready", Head: true} }},
 	}
 }
 
